@@ -41,14 +41,22 @@ OPTS = {"quick": {"path_wall": 30.0, "qto": 10000}, "thorough": {"path_wall": 60
 
 
 # ------------------------------------------------------------------------------------------ job shop
-def h_jobshop(s, machines, rule, local_search, max_iter):
+def h_jobshop(s, machines, rule, local_search, max_iter, stop=0):
     """machines: list of lists (machine index per operation)."""
     mod = importlib.import_module("solvor.job_shop")
     dur = [[s.int("d%d_%d" % (j, k), 0, None) for k in range(len(row))] for j, row in enumerate(machines)]
     jobs = [[(machines[j][k], dur[j][k]) for k in range(len(machines[j]))] for j in range(len(machines))]
     s.patch(mod, Random=SymRandom(s))
     s.stub(mod, float=sym_float)
-    res = mod.solve_job_shop(jobs, rule=rule, local_search=local_search, max_iter=max_iter, seed=1)
+    kw = {}
+    if stop:  # a progress callback that asks to stop at its stop-th report: the early-exit Result is held to the same obligations
+        seen = [0]
+
+        def cb(progress):
+            seen[0] += 1
+            return seen[0] >= stop
+        kw = {"on_progress": cb, "progress_interval": 1}
+    res = mod.solve_job_shop(jobs, rule=rule, local_search=local_search, max_iter=max_iter, seed=1, **kw)
     sch = res.solution
     ops = [(j, k) for j in range(len(machines)) for k in range(len(machines[j]))]
     ok = isinstance(sch, dict) and set(sch.keys()) == set(ops)
@@ -319,7 +327,9 @@ def h_vrptw(s, case, max_iter, weights_symbolic=True):
     if inv(s, st, len(expect), multi, "vrptw", D=Dref):
         arr = [ref_arrivals(st, v, Dref) for v in range(len(st.routes))]
         want = documented_objective(st, multi, w, with_arrivals=arr, D=Dref)
-        tol = 1e-9 * want + 1e-9  # coordinates are concrete floats: the two sums round differently (all terms are non-negative)
+        # coordinates are concrete floats: the implementation rounds where the reference is exact, and a large weight amplifies that
+        # (all terms are non-negative): tolerance relative to the weighted sum plus the weights themselves
+        tol = 1e-9 * (want + ssum(w.values())) + 1e-9
         s.check(AND(res.objective - want <= tol, want - res.objective <= tol), "vrptw.objective_is_documented_weighted_sum_of_returned_state")
     s.goal("vrptw.top")
     if any(len([1 for r in st.routes if c in r]) >= 2 for c, k in multi.items() if k > 1):
@@ -369,6 +379,9 @@ def items(tier, rng):
             for rule in (("spt", "random") if mi % 2 == 0 else ("fifo",)):
                 out.append({"name": "js_ls_%s_%s" % (shape, rule), "harness": "h_jobshop", "max_paths": cap, "spread": rng.randrange(1 << 30),
                             "params": {"machines": machines, "rule": rule, "local_search": True, "max_iter": 2 if q else 3}})
+    for k, machines in enumerate(JS_SHAPES["2x2"][:4] + JS_SHAPES["3x2"][:2]):
+        out.append({"name": "js_stop", "harness": "h_jobshop", "max_paths": cap, "spread": rng.randrange(1 << 30),
+                    "params": {"machines": machines, "rule": ("spt", "random")[k % 2], "local_search": True, "max_iter": 3, "stop": 1 + k % 2}})
     out.append({"name": "vrp_base", "harness": "h_vrp_base", "params": {"n_cust": 3, "n_veh": 2}})
     multi = {"1": 2}
     states = list(enumerate_states(3, 2, {1: 2}))
